@@ -82,10 +82,11 @@ Print Assumptions C14_guard_parser_total.
 From Msm Require Import Lemmas_PumlRow.
 
 (* every line of the documented grammar
-       Source  -[-]*>  Target  [ : Event  [ / Actions ] [ [Guard] ] ]       (actions and guard in either order)
+       Source  -[-]*>  Target  [ : [-]Event  [ / Actions ] [ [Guard] ] ]    (actions and guard in either order; a '-'
+   directly before the event marks an internal transition: the target field is then empty)
    is split into exactly its five fields: identifiers, action lists and guard texts of any length - they may contain
    anything but the structural characters - : / [ ] (blanks, commas, '*', '&&', '!', parentheses ... inside are kept) -,
-   arrows of any length, any amount of blank / tab padding at each of the up to sixteen gaps.  The only bound is that
+   arrows of any length, any amount of blank / tab padding at each of the up to seventeen gaps (also in front of the source).  The only bound is that
    the line is shorter than std::string::npos.  (wf_line: every pad is blank, every token starts and ends with a
    character cleanup_token keeps; render / fields: Lemmas_PumlRow.v.) *)
 Theorem C14_parse_row_exact : forall l, wf_line l -> size (render l) < npos -> parse_row (render l) = fields l.
@@ -99,4 +100,15 @@ Example C14_parse_row_example : wf_line ex_line /\ size (render ex_line) < npos 
 Proof.
   destruct ex_line_ok as (H1 & H2 & H3). split; [exact H1|]. split; [exact H2|].
   split; [rewrite H3; reflexivity | apply parse_row_exact; assumption].
+Qed.
+
+(* an internal transition line: "Open -> Open : -play / defer  " has no target, event play, action defer *)
+Example C14_parse_row_internal_example :
+  let l := PLine [] [79;112;101;110]%nat [32%nat] [] [32%nat] [79;112;101;110]%nat [32%nat]
+                 (Some ([32%nat], [c_dash], [112;108;97;121]%nat, [32%nat], TAct [32%nat] [100;101;102;101;114]%nat [32;32]%nat)) in
+  wf_line l /\ parse_row (render l) = Transition [79;112;101;110]%nat [] [112;108;97;121]%nat [] [100;101;102;101;114]%nat.
+Proof.
+  cbv zeta. split; [|vm_compute; reflexivity].
+  unfold wf_line, word, blank, dashes, starts, ends, clean, not_pad. cbn.
+  repeat split; try (right; reflexivity); repeat constructor; auto.
 Qed.
